@@ -3010,7 +3010,12 @@ func (p *Parser) parseAsteriskReplace(asterisk *ast.Asterisk) ast.Expression {
 			Position: p.current.Pos,
 		}
 
+		startPos := p.current.Pos
 		replace.Expr = p.parseExpression(ALIAS_PREC)
+		// If we didn't advance, break to avoid infinite loop
+		if p.current.Pos == startPos {
+			break
+		}
 
 		if p.currentIs(token.AS) {
 			p.nextToken()
@@ -3245,7 +3250,12 @@ func (p *Parser) parseColumnsReplace(matcher *ast.ColumnsMatcher) ast.Expression
 			Position: p.current.Pos,
 		}
 
+		startPos := p.current.Pos
 		replace.Expr = p.parseExpression(ALIAS_PREC)
+		// If we didn't advance, break to avoid infinite loop
+		if p.current.Pos == startPos {
+			break
+		}
 
 		if p.currentIs(token.AS) {
 			p.nextToken()
